@@ -513,3 +513,268 @@ Proof.
     destruct (unify_value_agrees_mgu fuel s t r H Hs Ht Hrun Hg) as [mu [Hmu _]]. congruence.
   - split; auto. intros _. apply (unify_value_raise_sound fuel s t e Hs Ht Hrun).
 Qed.
+
+(* ------------------------------------------------------------------ *)
+(* An a-priori class inside the guard: ONE SIDE GROUND.  Then every binding is ground, a variable is always rebound
+   to the value it already has, and the final dictionary is solved. *)
+Definition gn (v : pval) : Prop := v = PNone \/ pground v = true.
+Definition gstore (H : store) : Prop := forall k u, In (k, u) H -> pground u = true.
+Definition functional (H : store) : Prop := forall k u u', In (k, u) H -> In (k, u') H -> u = u'.
+
+Lemma pground_nonone : forall v, pground v = true -> nonone v = true.
+Proof.
+  induction v as [| |f args IH] using pval_ind'; simpl; intros Hg; try discriminate.
+  rewrite forallb_forall in *. rewrite Forall_forall in IH. auto.
+Qed.
+
+Lemma pground_tvars : forall v, pground v = true -> tvars (E v) = [].
+Proof.
+  induction v as [| |f args IH] using pval_ind'; simpl; intros Hg; try discriminate.
+  induction args as [|a args IHa]; simpl in *; auto.
+  apply andb_true_iff in Hg. destruct Hg as [Ha Hl]. inversion IH as [|? ? Hia Hil]; subst.
+  rewrite (Hia Ha). simpl. apply IHa; auto.
+Qed.
+
+Lemma sv_find_none_notin : forall H x u, wfH H -> sv_find H (PVar x) = None -> ~ In (PVar x, u) H.
+Proof.
+  induction H as [|[k' u'] H IH]; intros x u Hw Hf Hin; simpl in *; auto.
+  destruct (Hw k' u' (or_introl eq_refl)) as [[x' Hk] _]. subst k'. simpl in Hf.
+  destruct (N.eqb x x') eqn:Ex; [discriminate|].
+  destruct Hin as [Heq|Hin].
+  - inversion Heq. subst. rewrite N.eqb_refl in Ex. discriminate.
+  - eapply IH; eauto. intros k u0 Hi. apply Hw. right. auto.
+Qed.
+
+Lemma sv_get_none_notin : forall H x u, wfH H -> sv_get H (PVar x) = PNone -> ~ In (PVar x, u) H.
+Proof.
+  intros H x u Hw Hg. unfold sv_get in Hg. destruct (sv_find H (PVar x)) as [u0|] eqn:Ef.
+  - subst u0. pose proof (sv_find_var H x PNone Hw Ef) as Hin. destruct (Hw _ _ Hin) as [_ Hn]. discriminate.
+  - apply sv_find_none_notin; auto.
+Qed.
+
+Definition gpost (v1 v2 : pval) (H : store) (r : pval) (H' : store) : Prop :=
+  gstore H' /\ functional H' /\
+  (pground v1 = true -> r = v1) /\ (pground v2 = true -> r = v2) /\
+  (gn v1 -> gn v2 -> H' = H).
+
+Definition gspec (f : pval -> pval -> store -> res store pval) : Prop :=
+  forall v1 v2 H r H', wfH H -> gstore H -> functional H -> wfv v1 -> wfv v2 -> (gn v1 \/ gn v2) ->
+  f v1 v2 H = Ret r H' -> gpost v1 v2 H r H'.
+
+Lemma gn_var : forall x, ~ gn (PVar x).
+Proof. intros x [Hc|Hc]; discriminate. Qed.
+
+Lemma mapM2_gspec : forall f, fspec f -> gspec f -> forall l H rs H', wfH H -> gstore H -> functional H ->
+  (forall a b, In (a, b) l -> nonone a = true /\ nonone b = true) ->
+  (forallb pground (map fst l) = true \/ forallb pground (map snd l) = true) ->
+  mapM2 f l H = Ret rs H' ->
+  gstore H' /\ functional H' /\
+  (forallb pground (map fst l) = true -> rs = map fst l) /\
+  (forallb pground (map snd l) = true -> rs = map snd l) /\
+  (forallb pground (map fst l) = true -> forallb pground (map snd l) = true -> H' = H).
+Proof.
+  intros f Hf Hg. induction l as [|[a b] l IH]; intros H rs H' Hw Hgs Hfun Hn Hside Hrun; simpl in Hrun.
+  - inversion Hrun. subst. repeat split; auto.
+  - destruct (Hn a b (or_introl eq_refl)) as [Hna Hnb].
+    pose proof (Hf a b H Hw (nonone_wfv _ Hna) (nonone_wfv _ Hnb)) as Hsp.
+    destruct (f a b H) as [r H1|e|] eqn:Ef; simpl in Hrun; try discriminate.
+    destruct Hsp as (Hw1 & _).
+    assert (Hside1 : gn a \/ gn b).
+    { simpl in Hside. destruct Hside as [Hs|Hs]; apply andb_true_iff in Hs; destruct Hs; [left|right]; right; auto. }
+    destruct (Hg a b H r H1 Hw Hgs Hfun (nonone_wfv _ Hna) (nonone_wfv _ Hnb) Hside1 Ef) as (Hgs1 & Hfun1 & Hr1 & Hr2 & Hsame).
+    destruct (mapM2 f l H1) as [rs' H2|e|] eqn:Em; simpl in Hrun; try discriminate. inversion Hrun. subst rs H'.
+    assert (Hside' : forallb pground (map fst l) = true \/ forallb pground (map snd l) = true).
+    { simpl in Hside. destruct Hside as [Hs|Hs]; apply andb_true_iff in Hs; destruct Hs; auto. }
+    destruct (IH H1 rs' H2 Hw1 Hgs1 Hfun1 (fun a0 b0 Hi => Hn a0 b0 (or_intror Hi)) Hside' Em) as (Hgs2 & Hfun2 & Hl1 & Hl2 & Hsame2).
+    split; auto. split; auto. simpl. split; [|split].
+    + intros Hs. apply andb_true_iff in Hs. destruct Hs as [Ha Hl]. rewrite Hr1, Hl1; auto.
+    + intros Hs. apply andb_true_iff in Hs. destruct Hs as [Hb Hl]. rewrite Hr2, Hl2; auto.
+    + intros Hs1 Hs2. apply andb_true_iff in Hs1. apply andb_true_iff in Hs2. destruct Hs1, Hs2.
+      rewrite Hsame2; auto. apply Hsame; right; auto.
+Qed.
+
+Lemma gpost_left_none : forall v H, gstore H -> functional H -> gpost PNone v H v H.
+Proof. intros v H Hg Hf. split; auto. split; auto. split; [discriminate|]. split; auto. Qed.
+Lemma gpost_right_none : forall v H, gstore H -> functional H -> gpost v PNone H v H.
+Proof. intros v H Hg Hf. split; auto. split; auto. split; auto. split; [discriminate|auto]. Qed.
+
+Lemma ground_var_step : forall x t H value H1, wfH H -> gstore H -> functional H -> pground t = true ->
+  gpost (sv_get H (PVar x)) t H value H1 ->
+  gstore (sv_set H1 (PVar x) value) /\ functional (sv_set H1 (PVar x) value) /\ value = t.
+Proof.
+  intros x t H value H1 Hw Hgs Hfun Ht (Hgs1 & Hfun1 & Hr1 & Hr2 & Hsame).
+  assert (Hv : value = t) by auto. subst value.
+  assert (Hgx : gn (sv_get H (PVar x))).
+  { destruct (sv_get_cases H x Hw) as [Hn|[Hin _]]; [left; auto | right; apply (Hgs _ _ Hin)]. }
+  assert (HH : H1 = H) by (apply Hsame; auto; right; auto). subst H1.
+  split; [|split; auto].
+  - intros k u [Heq|Hin]; [inversion Heq; subst; auto | eauto].
+  - assert (Hx : forall u, In (PVar x, u) H -> u = t).
+    { intros u Hin. destruct (sv_get_cases H x Hw) as [Hn|[Hin' Hnn]].
+      - exfalso. eapply sv_get_none_notin; eauto.
+      - rewrite (Hfun _ _ _ Hin Hin'). symmetry. apply Hr1. apply (Hgs _ _ Hin'). }
+    intros k u u' [Heq|Hin] [Heq'|Hin'].
+    + inversion Heq; inversion Heq'; subst; auto.
+    + inversion Heq; subst. symmetry. auto.
+    + inversion Heq'; subst. auto.
+    + eauto.
+Qed.
+
+Theorem uv_gspec : forall fuel, gspec (unify_value fuel).
+Proof.
+  induction fuel as [|fuel IH]; intros v1 v2 H r H' Hw Hgs Hfun Hv1 Hv2 Hside Hrun; [discriminate|].
+  destruct v1 as [|x|f xs]; destruct v2 as [|y|g ys];
+    cbn -[sv_get sv_set in_variables signature_eqb py_max pval_eqb] in Hrun.
+  - inversion Hrun; subst. apply gpost_left_none; auto.
+  - inversion Hrun; subst. apply gpost_left_none; auto.
+  - inversion Hrun; subst. apply gpost_left_none; auto.
+  - inversion Hrun; subst. apply gpost_right_none; auto.
+  - exfalso. destruct Hside as [Hc|Hc]; eapply gn_var; eauto.
+  - (* variable / ground term *)
+    assert (Ht : pground (PTerm g ys) = true).
+    { destruct Hside as [Hc|[Hc|Hc]]; [exfalso; eapply gn_var; eauto | discriminate | auto]. }
+    destruct (in_variables (PVar x) (PTerm g ys)); [discriminate|].
+    destruct (unify_value fuel (sv_get H (PVar x)) (PTerm g ys) H) as [value H1|e|] eqn:Erec; try discriminate.
+    inversion Hrun; subst r H'.
+    pose proof (IH _ _ _ _ _ Hw Hgs Hfun (sv_get_wfv H x Hw) Hv2 (or_intror (or_intror Ht)) Erec) as Hp.
+    destruct (ground_var_step x _ H value H1 Hw Hgs Hfun Ht Hp) as (A & B & Cq).
+    split; auto. split; auto. split; [discriminate|]. split; auto.
+    intros Hc. exfalso. eapply gn_var; eauto.
+  - inversion Hrun; subst. apply gpost_right_none; auto.
+  - (* ground term / variable *)
+    assert (Ht : pground (PTerm f xs) = true).
+    { destruct Hside as [[Hc|Hc]|Hc]; [discriminate | auto | exfalso; eapply gn_var; eauto]. }
+    destruct (in_variables (PVar y) (PTerm f xs)); [discriminate|].
+    destruct (unify_value fuel (sv_get H (PVar y)) (PTerm f xs) H) as [value H1|e|] eqn:Erec; try discriminate.
+    inversion Hrun; subst r H'.
+    pose proof (IH _ _ _ _ _ Hw Hgs Hfun (sv_get_wfv H y Hw) Hv1 (or_intror (or_intror Ht)) Erec) as Hp.
+    destruct (ground_var_step y _ H value H1 Hw Hgs Hfun Ht Hp) as (A & B & Cq).
+    split; auto. split; auto. split; auto. split; [discriminate|].
+    intros _ Hc. exfalso. eapply gn_var; eauto.
+  - (* term / term *)
+    assert (Hn1 : nonone (PTerm f xs) = true) by (apply wfv_nonone; auto; discriminate).
+    assert (Hn2 : nonone (PTerm g ys) = true) by (apply wfv_nonone; auto; discriminate).
+    simpl in Hn1, Hn2. cbn [signature_eqb] in Hrun.
+    destruct (sym_eqb f g && Nat.eqb (length xs) (length ys)) eqn:Es; [|discriminate].
+    apply andb_true_iff in Es. destruct Es as [Ef El]. apply sym_eqb_eq in Ef. apply Nat.eqb_eq in El. subst g.
+    unfold zip in Hrun.
+    change (fun a1 a2 source_values => unify_value fuel a1 a2 source_values) with (unify_value fuel) in Hrun.
+    destruct (mapM2 (unify_value fuel) (combine xs ys) H) as [rs H1|e|] eqn:Em; try discriminate.
+    inversion Hrun; subst r H'.
+    assert (Hfst : map fst (combine xs ys) = xs).
+    { clear - El. revert ys El. induction xs; intros [|y ys] El; simpl in *; try discriminate; auto. f_equal; auto. }
+    assert (Hsnd : map snd (combine xs ys) = ys).
+    { clear - El. revert ys El. induction xs; intros [|y ys] El; simpl in *; try discriminate; auto. f_equal; auto. }
+    assert (Hside' : forallb pground (map fst (combine xs ys)) = true \/ forallb pground (map snd (combine xs ys)) = true).
+    { rewrite Hfst, Hsnd. destruct Hside as [[Hc|Hc]|[Hc|Hc]]; try discriminate; simpl in Hc; auto. }
+    destruct (mapM2_gspec (unify_value fuel) (uv_spec fuel) IH (combine xs ys) H rs H1 Hw Hgs Hfun
+                (fun a b => combine_in_forallb xs ys a b Hn1 Hn2) Hside' Em) as (A & B & C1 & C2 & C3).
+    rewrite Hfst in C1, C3. rewrite Hsnd in C2, C3.
+    split; auto. split; auto. simpl. split; [|split].
+    + intros Hc. rewrite C1; auto.
+    + intros Hc. rewrite C2; auto.
+    + intros [Hc|Hc] [Hd|Hd]; try discriminate. apply C3; auto.
+Qed.
+
+(* a ground, functional dictionary is solved *)
+Lemma term_eqb_refl : forall a, term_eqb a a = true.
+Proof.
+  induction a as [x|f xs IH] using term_ind'; simpl; [apply N.eqb_refl|].
+  apply andb_true_iff. split; [apply sym_eqb_eq; auto|].
+  induction xs as [|x xs IHx]; auto. inversion IH; subst. apply andb_true_iff. split; auto.
+Qed.
+
+Lemma inst_ground : forall th v, pground v = true -> inst th (E v) = E v.
+Proof. intros th v Hg. apply inst_id_on. rewrite (pground_tvars v Hg). intros ? []. Qed.
+
+Lemma tau_ground : forall H x u, wfH H -> functional H -> In (PVar x, u) H -> tau H x = E u.
+Proof.
+  intros H x u Hw Hfun Hin. unfold tau. destruct (sv_find H (PVar x)) as [u'|] eqn:Ef.
+  - rewrite (Hfun _ _ _ (sv_find_var H x u' Hw Ef) Hin). auto.
+  - exfalso. eapply sv_find_none_notin; eauto.
+Qed.
+
+Lemma sigma_ground : forall H x u n, wfH H -> gstore H -> functional H -> In (PVar x, u) H ->
+  sigma_n (S n) H x = E u.
+Proof.
+  intros H x u n Hw Hgs Hfun Hin. induction n as [|n IH].
+  - simpl. apply tau_ground; auto.
+  - change (sigma_n (S (S n)) H x) with (inst (tau H) (sigma_n (S n) H x)). rewrite IH.
+    apply inst_ground. apply (Hgs _ _ Hin).
+Qed.
+
+Lemma sv_visible_incl : forall H p, In p (sv_visible H) -> In p H.
+Proof.
+  induction H as [|[k u] H IH]; intros p Hin; simpl in *; auto.
+  destruct Hin as [Heq|Hin]; auto. apply filter_In in Hin. destruct Hin. auto.
+Qed.
+
+Lemma bound_vars_in : forall H n, In n (bound_vars H) -> exists u, In (PVar n, u) H.
+Proof.
+  intros H n Hin. unfold bound_vars in Hin. apply in_flat_map in Hin. destruct Hin as [[k u] [Hp Hn]].
+  simpl in Hn. destruct k as [|m|]; try contradiction. destruct Hn as [Hn|[]]. subst m.
+  exists u. apply sv_visible_incl. auto.
+Qed.
+
+Lemma filter_all : forall (A : Type) (f : A -> bool) l, (forall a, In a l -> f a = true) -> filter f l = l.
+Proof.
+  induction l as [|a l IH]; intros Hf; simpl; auto. rewrite (Hf a) by (left; auto). f_equal. apply IH.
+  intros; apply Hf; right; auto.
+Qed.
+
+Lemma step_safe_ground : forall H safe, wfH H -> gstore H -> functional H -> step_safe H safe = bound_vars H.
+Proof.
+  intros H safe Hw Hgs Hfun. unfold step_safe. apply filter_all. intros n Hn.
+  destruct (bound_vars_in H n Hn) as [u Hin]. rewrite (tau_ground H n u Hw Hfun Hin).
+  rewrite (pground_tvars u (Hgs _ _ Hin)). auto.
+Qed.
+
+Lemma ground_solved : forall H, wfH H -> gstore H -> functional H -> solved H = true.
+Proof.
+  intros H Hw Hgs Hfun. unfold solved. apply andb_true_iff. split.
+  - unfold acyclic. destruct H as [|p H]; [reflexivity|].
+    set (H0 := p :: H) in *. change (length H0) with (S (length H)). simpl iter_safe.
+    rewrite (step_safe_ground H0 [] Hw Hgs Hfun).
+    assert (Hit : forall k, iter_safe k H0 (bound_vars H0) = bound_vars H0).
+    { induction k; simpl; auto. rewrite (step_safe_ground H0 _ Hw Hgs Hfun). auto. }
+    rewrite Hit. apply forallb_forall. intros n Hn. unfold memN. apply existsb_exists. exists n. split; auto.
+    apply N.eqb_refl.
+  - apply forallb_forall. intros [k u] Hin. simpl.
+    destruct (Hw _ _ Hin) as [[x Hk] _]. subst k. unfold sigma.
+    destruct H as [|p H]; [contradiction|].
+    pose proof (sigma_ground (p :: H) x u (length H) Hw Hgs Hfun Hin) as Hsg.
+    change (inst (sigma_n (length (p :: H)) (p :: H)) (E (PVar x))) with (sigma_n (S (length H)) (p :: H) x).
+    rewrite Hsg. rewrite (inst_ground _ u (Hgs _ _ Hin)). apply term_eqb_refl.
+Qed.
+
+(* a-priori class inside the guard: if one of the two terms is ground, a successful run always ends with a
+   solved dictionary, so the correctness theorems apply without looking at the result *)
+Theorem unify_value_one_side_ground_solved : forall fuel s t r H, nonone s = true -> nonone t = true ->
+  pground s = true \/ pground t = true ->
+  unify_value fuel s t [] = Ret r H -> solved H = true.
+Proof.
+  intros fuel s t r H Hs Ht Hg Hrun.
+  assert (Hside : gn s \/ gn t) by (destruct Hg; [left | right]; right; auto).
+  assert (G0 : gstore []) by (intros k u []).
+  assert (F0 : functional []) by (intros k u u' []).
+  destruct (uv_gspec fuel s t [] r H wfH_nil G0 F0 (nonone_wfv _ Hs) (nonone_wfv _ Ht) Hside Hrun) as (A & B & _).
+  destruct (run_facts fuel s t r H Hs Ht Hrun) as (Hw & _).
+  apply ground_solved; auto.
+Qed.
+
+Theorem unify_value_one_side_ground_correct : forall fuel s t, nonone s = true -> nonone t = true ->
+  pground s = true \/ pground t = true ->
+  unify_value fuel s t [] <> OutOfFuel ->
+  (is_raise (unify_value fuel s t []) = true <-> mgu (E s) (E t) = None) /\
+  (forall r H, unify_value fuel s t [] = Ret r H ->
+     unifies (sigma H) (E s) (E t) /\ resolve H r = resolve H s /\
+     (forall th, unifies th (E s) (E t) -> forall u, inst th (inst (sigma H) u) = inst th u)).
+Proof.
+  intros fuel s t Hs Ht Hg Hfuel. split.
+  - apply unify_value_fails_iff; auto.
+    destruct (unify_value fuel s t []) as [r H|e|] eqn:Hrun; simpl; auto.
+    + eapply unify_value_one_side_ground_solved; eauto.
+    + exfalso. apply Hfuel. auto.
+  - intros r H Hrun. eapply unify_value_solved_mgu; eauto.
+    eapply unify_value_one_side_ground_solved; eauto.
+Qed.
